@@ -15,7 +15,8 @@ RULE = (
     "histogram engine and seed-chosen generic weights / second variable on every tuple of "
     "length <= L-1.  part 'nperbin': every tuple of length <= LN over a 6-value alphabet x "
     "nperbin 1..len+1 x mergelast x 3 limit settings x {plain, weights, second variable, both} "
-    "x entry {Binner, histogram(more=True), histogram(rev=True)} x both engines.  part "
+    "x entry {Binner, histogram(more=True), histogram(weights=), histogram(rev=True)} (both "
+    "histogram engines for length < LN).  part "
     "'two-symbol-long': every 2-symbol pattern of length 8/12 through both modes.  part "
     "'reuse' (E2): all sequences of <= 3 dohist/calc_stats calls on ONE Binner object.  "
     "non-trivial = the case has a bin with >= 2 members, an empty bin, a datum that is not "
@@ -522,7 +523,8 @@ def main(ctx):
         gw = tuple(GW[:n])
         gy = tuple(GY[:n])
         out = []
-        for eng in (True, False):
+        # the pure python engine on every tuple shorter than the length bound
+        for eng in ((True, False) if n < LN else (True,)):
             out += [
                 (None, None, "binner", eng),
                 (None, None, "hist-more", eng),
@@ -564,7 +566,7 @@ def main(ctx):
 
     ctx.lattice("nperbin", units_n, one_nper, expand=expand_n,
                 bounds=dict(max_len=LN, alphabet=VN, nperbin="1..len+1", mergelast=[True, False],
-                            limits=NLIMITS, engines=["compiled", "python"]))
+                            limits=NLIMITS, engines=["compiled", "python (len < max_len)"]))
 
     # -------------------------------------------------- part: two-symbol-long
     LL = ctx.pick(8, 12)
